@@ -221,11 +221,13 @@ def c05(tier, seed):
 
 def q_discover(h, s, K=2, big_endian=False, frame_n=576):
     nm = "blk_discover_h%d_s%d%s%s" % (h, s, "_be" if big_endian else "", "" if frame_n == 576 else "_%d" % frame_n)
-    return blkq(nm, "h_discover", live=["answerHello"], K=K, frame_n=frame_n, defines=["HOSTLEN=%d" % h, "SSIDLEN=%d" % s], unwind=max(K + 3, 34),
+    q = blkq(nm, "h_discover", live=["answerHello"], K=K, frame_n=frame_n, defines=["HOSTLEN=%d" % h, "SSIDLEN=%d" % s], unwind=max(K + 3, 34),
                 no_std_checks=True, big_endian=big_endian, timeout=600, backends=("minisat",),
                 bounds={"hostname length": h, "SSID length": s, "attributes": "MAC 2^48, flags 2^32, ifType/IPv4/speed 2^32, IPv6 2^128, name bytes, RSSI 2^8, rate 2^16, Wi-Fi on/off, BSSID ok/fail, each getter failing independently - all symbolic",
                         "Discover": "ToS 0/1, any addresses/generation/seq, from mapper or stranger", "byte order": "big-endian machine model" if big_endian else "little-endian machine model"},
                 desc="Discover class through real parseFrame/answerHello and all TLV writers: positional Hello oracle")
+    q.hello_pair = (h, s)
+    return q
 
 
 LEN_EDGE = [0, 1, 31, 32, 33, 40]
@@ -416,7 +418,12 @@ def q_rel(mode, K=2, only=None):
               "direct cross-check with the record created by the real lltd_state_for_iface on a fresh registry, continuation length 1 per class",
               "Emit continuation bounded to 3 descriptors; Hello with hostname length 33 / SSID length 7; observation list bound K=2; platform large-property data identical in both worlds (same getter results)"])
 def c09(tier, seed):
-    return [q_reset(tier, 3)] + q_rel(1) + q_rel(2)
+    qs = [q_reset(tier, 3)] + q_rel(1) + q_rel(2)
+    if tier == "thorough":
+        qs += [q for q in q_rel(1, K=3) + q_rel(2, K=3)]
+        for q in qs[-18:]:
+            q.name += "_K3"
+    return qs
 
 
 def q_preempt(registered):
@@ -434,7 +441,13 @@ def c17(tier, seed):
     il = [blkq("blk_interleave_emit_at%d" % k, "h_interleave", replace={}, K=1, unwind=6, no_std_checks=True, defines=["PREEMPT_AT=%d" % k, "V_PREEMPT"],
                bounds={"threads": "B's whole Emit runs inside the %d-th platform call of A's Emit (allocation, address getter, pause, transmit, transmit, release; one query per call index 0..6)" % k, "Emit": "one descriptor each, kinds {0,1}, any addresses/pause"},
                desc="second thread model: pre-emption at platform calls; both interfaces process an Emit; each must transmit exactly its own Probe/Train and ACK") for k in range(7)]
-    return q_rel(3) + [q_preempt(True), q_preempt(False)] + il
+    qs = q_rel(3) + [q_preempt(True), q_preempt(False)] + il
+    if tier == "thorough":
+        more = q_rel(3, K=3)
+        for q in more:
+            q.name += "_K3"
+        qs += more
+    return qs
 
 
 def c18_block_queries(K=2):
@@ -484,6 +497,8 @@ def q_probe_cap(K=2):
               "histories of any length by induction over the record invariant (count = list length <= cap)"])
 def c19(tier, seed):
     qs = c01_block_queries(576, hello_pairs=((33, 31),))
+    if tier == "thorough":
+        qs += c01_block_queries(1500, hello_pairs=((40, 40),))
     qs += [q_probe_cap(), q_probe(tier, 3), q_query(tier, 3), q_query(tier, 5, frame_n=100, name="query_smallmtu"), q_reset(tier, 3), q_other(tier, 2), q_emit_send(), q_emit_full(3), q_qltlv("alltypes_576"), q_discover(32, 32)]
     return qs
 
@@ -500,3 +515,14 @@ def c02(tier, seed):
     if tier == "thorough":
         qs += [q_discover(h, s) for h in LEN_EDGE for s in (1, 31)] + [q_query(tier, 29)]
     return qs
+
+
+def q_discover_generic(h, s, K=2, big_endian=False):
+    q = q_discover(h, s, K=K, big_endian=big_endian)
+    q.name = q.name + "_generic"
+    q.defines = q.defines + ["HELLO_GENERIC"]
+    q.unwind = 34
+    q.backends = ["cadical", "minisat", "kissat"]
+    q.timeout = 1500; q.mem_gb = 16
+    q.desc = "stage 2 (only after a positional failure): order-agnostic Hello decoder"
+    return q
